@@ -282,6 +282,11 @@ structure Facts where
   scanFallback : Tri
   scanSplits3 : Tri
   rejectsLongName : Tri
+  /-- `openExistingFile` starts a file over when it is shorter than header + name (a crash between
+      the two writes of `createNewFile`), so blocks are never appended inside the name area -/
+  openRecreatesShortFile : Tri
+  /-- `Explorer.Scan` clears the index before every directory walk -/
+  scanClearsIndex : Tri
   deriving Repr
 
 def cfgOf (f : Facts) : Cfg :=
@@ -290,14 +295,14 @@ def cfgOf (f : Facts) : Cfg :=
 def shapeOk (f : Facts) : Bool :=
   f.nameLenBytes == some 2 && f.writesNameAfterHeader == .yes && f.nameReadGuardedByV3 == .yes &&
   f.v2ZeroesNameLength == .yes && f.dataStartUsesNameLength == .yes && f.loadIndexMetaFallback == .yes &&
-  f.scanFallback == .yes && f.scanSplits3 == .yes
+  f.scanFallback == .yes && f.scanSplits3 == .yes && f.openRecreatesShortFile == .yes && f.scanClearsIndex == .yes
 
 def findings (f : Facts) : List String :=
   (if f.rejectsLongName == .no then ["C29-long-name-truncated"] else []) ++
   (if f.v2Fallback == .no then ["C29-no-v2-fallback"] else [])
 
 def classify (f : Facts) : Verdict :=
-  if !shapeOk f then .undetermined "name-area facts (NameLength width, V3 guard, DataStartOffset, metadata fallbacks, SplitN) differ from the model"
+  if !shapeOk f then .undetermined "name-area facts (NameLength width, V3 guard, DataStartOffset, metadata fallbacks, SplitN, short-file re-creation on open, index cleared per scan) differ from the model"
   else if f.rejectsLongName == .unknown || f.v2Fallback == .unknown then .undetermined "createNewFile / ReadSwampName pattern not recognised"
   else if !(findings f).isEmpty then .violated (findings f)
   else .holds
